@@ -477,8 +477,13 @@ class Scope:
     return self._invalid
 
   def _check_valid(self):
-    if self._invalid:
-      raise errors.InvalidScopeError(self.name)
+    # a scope dies with its ancestors: only the root is invalidated when
+    # init/apply return
+    scope: Scope | None = self
+    while scope is not None:
+      if scope._invalid:
+        raise errors.InvalidScopeError(self.name)
+      scope = scope.parent
 
   @contextlib.contextmanager
   def temporary(self):
